@@ -33,6 +33,14 @@ def run(ctx):
     cases = R.build_cases(ctx, env)
     R.execute(ctx, env, cases)
     R.judge(ctx, env, cases)
+    ctx.note("rule", "cases = (wire tree from the independent writer, destination type, decoder options); families: every tag class and "
+             "spelling x ~70 destination types at top level; the same token in slice / array / map value / map key / struct field / "
+             "pointer (1 and 3 deep) position; reference mode; interface{} under every LongType/RealType/MapType/ListType setting; "
+             "lists, maps and objects (extra, missing, reordered, unknown fields, maps for objects, lists for maps, unregistered classes) "
+             "into ~40 container types; references to every referable construct through every converter, cycles; random structured "
+             "values of depth <= 3; corpus of past findings. non-trivial = anything but the null token; distinct by (options, type, wire tree).")
+    ctx.note("oracle", "extracted representable(denote w) judges the implementation's outcome on every case; position independence is "
+             "checked on the implementation's own results (top level against each wrapper)")
 
 
 def replay(ctx, path):
